@@ -436,3 +436,14 @@ func (w *World) CategoryName(v int64) string {
 	}
 	return fmt.Sprint(v)
 }
+
+// EnumName returns the constant name of value v of the named integer type rel.typ.
+func (w *World) EnumName(rel, typ string, v int64) string {
+	n := w.NamedType(rel, typ)
+	for _, k := range w.enums[n] {
+		if kv, _ := constant.Int64Val(constant.ToInt(k.Val())); kv == v {
+			return k.Name()
+		}
+	}
+	return fmt.Sprint(v)
+}
